@@ -464,6 +464,36 @@ pub fn run_lr(def: &'static Def, recs: &'static [Rec; NREC], cfg: &RunCfg, input
     run_lr_with(def, cfg, lexer, input)
 }
 
+
+/// All inputs of a case parsed in order by ONE LRParser instance (a user keeps a parser and calls
+/// parse repeatedly): results must not depend on what was parsed before.
+pub fn run_lr_sequence(def: &'static Def, recs: &'static [Rec; NREC], cfg: &RunCfg, inputs: &[String]) -> Vec<String> {
+    let lexer: StringLexer<LCtx, St, Tk, Rec, NREC> = StringLexer::new(cfg.skip_ws, recs);
+    let parser: LRParser<LCtx, St, Pk, Tk, Nk, Def, StringLexer<LCtx, St, Tk, Rec, NREC>, TreeBuilder<str, Pk, Tk>, str> =
+        LRParser::new(def, St(0), cfg.partial, cfg.has_layout, lexer, TreeBuilder::new());
+    let mut out = vec![];
+    for input in inputs {
+        let r = catch_unwind(AssertUnwindSafe(|| match parser.parse(input) {
+            Ok(t) => {
+                let mut s = String::from("OK ");
+                sexp(input, &t, &mut s);
+                s
+            }
+            Err(e) => err_str(&e),
+        }));
+        PROGRESS.fetch_add(1, Ordering::SeqCst);
+        match r {
+            Ok(s) => out.push(s),
+            Err(e) => {
+                // a panic inside parse leaves the RefCell borrowed: stop the sequence here
+                out.push(format!("PANIC {}", panic_msg(e)));
+                break;
+            }
+        }
+    }
+    out
+}
+
 const MAX_TREES: usize = 300;
 
 pub fn forest_str(input: &str, forest: &Forest<'_, str, Pk, Tk>) -> String {
@@ -610,6 +640,7 @@ struct Case {
     want_match: bool,
     sppf: bool,
     noforest: bool,
+    seq: bool,
     grammar: String,
     inputs: Vec<String>,
 }
@@ -638,6 +669,7 @@ fn parse_cases(text: &str) -> Vec<Case> {
                     want_match: false,
                     sppf: false,
                     noforest: false,
+                    seq: false,
                     grammar: String::new(),
                     inputs: vec![],
                 }
@@ -660,6 +692,7 @@ fn parse_cases(text: &str) -> Vec<Case> {
                         "match" => c.want_match = b,
                         "sppf" => c.sppf = b,
                         "noforest" => c.noforest = b,
+                        "seq" => c.seq = b,
                         _ => panic!("flag {k}"),
                     }
                 }
@@ -814,6 +847,17 @@ fn main() {
                             let r = run_glr(def, recs, &cfg, inp);
                             writeln!(b, "RESULT GLR {ii} {r}").unwrap();
                             PROGRESS.fetch_add(1, Ordering::SeqCst);
+                        }
+                        out.write_all(b.as_bytes()).unwrap();
+                        out.flush().unwrap();
+                    }
+                    if c.seq && !resume && c.lexer == "default" {
+                        writeln!(out, "BEGIN {}", c.inputs.len()).unwrap();
+                        out.flush().unwrap();
+                        let rs = run_lr_sequence(def, recs, &cfg, &c.inputs);
+                        let mut b = String::new();
+                        for (ii, r) in rs.iter().enumerate() {
+                            writeln!(b, "RESULT LRS {ii} {r}").unwrap();
                         }
                         out.write_all(b.as_bytes()).unwrap();
                         out.flush().unwrap();
